@@ -65,6 +65,15 @@ func (m *mirrorer) render(e ast.Expr, mirror bool) string {
 		}
 		return tv.Value.ExactString()
 	}
+	// a bitboard that can be computed from constants (|, &, &^, ^, BitBoardFromSquares(consts)) is a literal in disguise
+	if t := info.TypeOf(e); t != nil && isBitBoardType(t) {
+		if u, ok := evalBBExpr(info, e); ok {
+			if mirror {
+				u = bits.ReverseBytes64(u)
+			}
+			return fmt.Sprintf("bb(%#x)", u)
+		}
+	}
 	switch x := e.(type) {
 	case *ast.Ident:
 		obj := info.ObjectOf(x)
@@ -154,6 +163,64 @@ func (m *mirrorer) render(e ast.Expr, mirror bool) string {
 }
 
 func isUntypedBig(tv types.TypeAndValue) bool { return false }
+
+// evalBBExpr evaluates a bitboard-typed expression built from constants, bit operators and
+// BitBoardFromSquares over constant squares.
+func evalBBExpr(info *types.Info, e ast.Expr) (uint64, bool) {
+	e = ast.Unparen(e)
+	if tv, ok := info.Types[e]; ok && tv.Value != nil {
+		if u, ok := constant.Uint64Val(constant.ToInt(tv.Value)); ok {
+			return u, true
+		}
+		return 0, false
+	}
+	switch x := e.(type) {
+	case *ast.BinaryExpr:
+		a, ok1 := evalBBExpr(info, x.X)
+		b, ok2 := evalBBExpr(info, x.Y)
+		if !ok1 || !ok2 {
+			return 0, false
+		}
+		switch x.Op {
+		case token.OR:
+			return a | b, true
+		case token.AND:
+			return a & b, true
+		case token.AND_NOT:
+			return a &^ b, true
+		case token.XOR:
+			return a ^ b, true
+		}
+	case *ast.UnaryExpr:
+		if x.Op == token.XOR {
+			a, ok := evalBBExpr(info, x.X)
+			return ^a, ok
+		}
+	case *ast.CallExpr:
+		if isConversion(info, x) && len(x.Args) == 1 {
+			return evalBBExpr(info, x.Args[0])
+		}
+		var fobj types.Object
+		switch f := ast.Unparen(x.Fun).(type) {
+		case *ast.Ident:
+			fobj = info.ObjectOf(f)
+		case *ast.SelectorExpr:
+			fobj = info.ObjectOf(f.Sel)
+		}
+		if fobj != nil && fobj.Name() == "BitBoardFromSquares" && fobj.Pkg() != nil && relPkg(fobj.Pkg().Path()) == "chess" {
+			var m uint64
+			for _, a := range x.Args {
+				k, ok := constInt(info, a)
+				if !ok || k < 0 || k > 63 {
+					return 0, false
+				}
+				m |= 1 << uint(k)
+			}
+			return m, len(x.Args) > 0
+		}
+	}
+	return 0, false
+}
 
 // colourMention: which colour constants / paired locals does n mention?
 func (m *mirrorer) mentions(n ast.Node) (w, b bool) {
@@ -991,6 +1058,12 @@ func init() {
 		Mutant{Name: "C17.R2-lazy-exit-one-sided", Prop: "C17", File: "eval/eval.go",
 			Old: "\tsp.addTempo(b, c)\n\tsp.addBishopPair(b, c)\n", New: "\tsp.addTempo(b, c)\n\tsp.addBishopPair(b, c)\n\n\tif sp.eg[White] > sp.eg[Black]+2500 || sp.eg[Black] > sp.eg[Black]+2500 {\n\t\treturn sp.taperedScore(b)\n\t}\n",
 			Expect: "C17.R2/eval.Eval#both-colours"},
+		Mutant{Name: "C17.R6-connected-rooks-looking-upwards-only", Prop: "C17", File: "eval/eval.go",
+			Old: "\tif attacks&b.Pieces[Rook]&b.Colors[color] != 0 {\n", New: "\tif attacks&b.Pieces[Rook]&b.Colors[color]&^(BitBoard(1)<<sq-1) != 0 {\n",
+			Expect: "C17.R6/eval.(*scorePair).addRookMobility#below-mask"},
+		Mutant{Name: "C17.R6-rank-distance-from-index-difference", Prop: "C17", File: "eval/eval.go", Quick: true,
+			Old: "\tax, ay, bx, by := int(a%8), int(a/8), int(b%8), int(b/8)\n\treturn max(Abs(ax-bx), Abs(ay-by))\n", New: "\tax, bx := int(a%8), int(b%8)\n\treturn max(Abs(ax-bx), Abs(int(a)-int(b))>>3)\n",
+			Expect: "C17.R6/eval.Chebishev#coordinate-of-difference"},
 		Mutant{Name: "C17.R5-connected-rooks-from-lowest-rook", Prop: "C17", File: "eval/eval.go", Quick: true,
 			Old: "\tif attacks&b.Pieces[Rook]&b.Colors[color] != 0 {\n\t\tsp.mg[color] += c.ConnectedRooks[0]\n\t\tsp.eg[color] += c.ConnectedRooks[1]\n", New: "\trooks := b.Pieces[Rook] & b.Colors[color]\n\tif sq == rooks.LowestSet() && attacks&rooks != 0 {\n\t\tsp.mg[color] += 2 * c.ConnectedRooks[0]\n\t\tsp.eg[color] += 2 * c.ConnectedRooks[1]\n",
 			Expect: "C17.R5/eval.(*scorePair).addRookMobility#scan"},
@@ -1241,4 +1314,177 @@ func c17R5(c *Ctx, p *Prog) {
 		})
 	}
 	c.Floor(rule, n, 3, "bit scans in package eval")
+}
+
+// ---- R6: square order and square-difference arithmetic ----
+//
+// Two more ways in which orientation leaks into colour-generic evaluation code without any colour
+// being spelled out:
+//   * "all squares below sq" masks ((1<<sq)-1, -(1<<sq)) and </> comparisons between two squares:
+//     mirroring the board reverses the rank order, so "the first of two pieces" is a different piece
+//     in the mirror image;
+//   * rank or file taken from the DIFFERENCE of two square indexes ((a-b)>>3, (a-b)/8, (a-b)&7):
+//     the borrow from the file part makes it differ from rank(a)-rank(b) exactly when the lower-rank
+//     square is on the higher file, a relation the mirror reverses.
+func c17R6(c *Ctx, p *Prog) {
+	const rule = "C17.R6"
+	isNamed := func(t types.Type, name string) bool {
+		n, ok := types.Unalias(t).(*types.Named)
+		return ok && n.Obj().Name() == name
+	}
+	var roots []*ssa.Function
+	for _, r := range p.instancesOf("eval.Eval") {
+		roots = append(roots, r)
+	}
+	if len(roots) == 0 {
+		c.Anchor(rule, "eval.Eval")
+		return
+	}
+	squareDerived := func(v ssa.Value) bool {
+		v = stripConv(v)
+		if _, isC := v.(*ssa.Const); isC {
+			return false
+		}
+		for w := range backSlice(v, sliceOpts{Stop: func(x ssa.Value) bool {
+			_, isCall := x.(*ssa.Call)
+			return isCall
+		}}) {
+			if isNamed(w.Type(), "Square") {
+				if _, isC := w.(*ssa.Const); !isC {
+					return true
+				}
+			}
+		}
+		return false
+	}
+	colourCond := func(b *ssa.BasicBlock) bool {
+		for _, ce := range controllingConds(b) {
+			if bo, ok := ce.Cond.(*ssa.BinOp); ok && (isNamed(bo.X.Type(), "Color") || isNamed(bo.Y.Type(), "Color")) {
+				return true
+			}
+		}
+		return false
+	}
+	isOneShl := func(v ssa.Value) (ssa.Value, bool) {
+		sh, ok := stripConv(v).(*ssa.BinOp)
+		if !ok || sh.Op != token.SHL {
+			return nil, false
+		}
+		if k, isc := constOf(sh.X); !isc || k != 1 {
+			return nil, false
+		}
+		if _, isc := constOf(sh.Y); isc {
+			return nil, false
+		}
+		return sh.Y, true
+	}
+	n := 0
+	seenKey := map[string]bool{}
+	for _, fn := range p.closure(roots, nil) {
+		if strings.Contains(fn.Synthetic, "wrapper") || fn.Blocks == nil {
+			continue
+		}
+		pkg := relPkg(fnPkgPath(fn))
+		if pkg != "eval" && pkg != "chess" {
+			continue
+		}
+		origin := fnName(fn)
+		if o := fn.Origin(); o != nil {
+			origin = fnName(o)
+		}
+		ord := 0
+		n++
+		allInstrs(fn, func(in ssa.Instruction) {
+			bo, ok := in.(*ssa.BinOp)
+			if !ok {
+				return
+			}
+			report := func(kind, msg string) {
+				ord++
+				key := fmt.Sprintf("%s#%s@%d", origin, kind, ord)
+				if seenKey[key] {
+					return
+				}
+				seenKey[key] = true
+				if colourCond(bo.Block()) {
+					c.Undec(rule, key, bo.Pos(), "%s — in colour-specific code: cannot decide whether the other colour uses the mirrored form", msg)
+				} else {
+					c.Fail(rule, key, bo.Pos(), "%s", msg)
+				}
+			}
+			switch bo.Op {
+			case token.SUB:
+				// (1<<sq) - 1
+				if k, isc := constOf(bo.Y); isc && k == 1 {
+					if sq, ok := isOneShl(bo.X); ok && (pkg == "eval") && (isNamed(sq.Type(), "Square") || squareDerived(sq)) {
+						report("below-mask", "the mask (1<<sq)-1 selects the squares below sq: which pieces lie \"below\" is reversed by mirroring the board, so a position and its mirror image are treated differently")
+					}
+				}
+			case token.LSS, token.GTR, token.LEQ, token.GEQ:
+				if pkg == "eval" && isNamed(bo.X.Type(), "Square") && isNamed(bo.Y.Type(), "Square") {
+					_, cx := stripConv(bo.X).(*ssa.Const)
+					_, cy := stripConv(bo.Y).(*ssa.Const)
+					if !cx && !cy {
+						report("square-order", "two squares are compared by index: the order of two pieces is reversed by mirroring the board")
+					}
+				}
+			case token.SHR, token.QUO, token.AND, token.REM:
+				k, isc := constOf(bo.Y)
+				if !isc {
+					return
+				}
+				if !((bo.Op == token.SHR && k == 3) || (bo.Op == token.QUO && k == 8) || (bo.Op == token.AND && k == 7) || (bo.Op == token.REM && k == 8)) {
+					return
+				}
+				// operand: |a-b| or a-b of two square indexes
+				v := stripConv(bo.X)
+				for i := 0; i < 4; i++ {
+					if call, ok := v.(*ssa.Call); ok && len(call.Call.Args) == 1 {
+						if f := calleeObj(call); f != nil && f.Name() == "Abs" {
+							v = stripConv(call.Call.Args[0])
+							continue
+						}
+					}
+					if ph, ok := v.(*ssa.Phi); ok && len(ph.Edges) == 2 {
+						// inlined abs: phi(d, -d)
+						for _, e := range ph.Edges {
+							if u, ok := stripConv(e).(*ssa.UnOp); ok && u.Op == token.SUB {
+								v = stripConv(u.X)
+							}
+						}
+						continue
+					}
+					break
+				}
+				d, ok := v.(*ssa.BinOp)
+				if !ok || d.Op != token.SUB {
+					return
+				}
+				if squareDerived(d.X) && squareDerived(d.Y) && fullSquare(d.X) && fullSquare(d.Y) {
+					report("coordinate-of-difference", "a rank/file coordinate is taken from the difference of two square indexes; because of the borrow from the file bits it differs from the difference of the coordinates whenever the lower-rank square is on the higher file — a relation mirroring reverses")
+				}
+			}
+		})
+	}
+	c.Floor(rule, n, 5, "functions in the evaluation's closure scanned for square-order arithmetic")
+}
+
+// fullSquare: v is a whole square index (not already reduced to a file or rank).
+func fullSquare(v ssa.Value) bool {
+	v = stripConv(v)
+	if bo, ok := v.(*ssa.BinOp); ok {
+		if k, isc := constOf(bo.Y); isc {
+			switch {
+			case bo.Op == token.AND && k == 7, bo.Op == token.REM && k == 8, bo.Op == token.SHR && k == 3, bo.Op == token.QUO && k == 8:
+				return false
+			}
+		}
+	}
+	if call, ok := v.(*ssa.Call); ok {
+		switch objName(calleeObj(call)) {
+		case "chess.(Square).File", "chess.(Square).Rank":
+			return false
+		}
+	}
+	return true
 }
